@@ -61,9 +61,9 @@ CHECKS['C06'] = dict(
    technique='Lean 4 proof (validity invariant, rejection lemmas) + differential correspondence through the real pjs classes',
    design='C06')
 CHECKS['C15'] = dict(
-   text='Model/LangGraph.lean models LanguageGraph._generate_graph (association nodes with the code\'s de-duplication, per-asset association lists, subtype walk), get_association_by_fields_and_assets and the static typing of process_step_expression. The correspondence compares asset / super / sub / association lists, the subtype matrix, association lookups in both orientations, link mirroring and error reporting for ill-formed mutants with an independent reference and the Lean model, and checks for random valid models that every attack-graph edge is predicted by a language-graph link.',
-   note='theorems over the language-graph model (subtype = closure of extends, association lists, lookup, type soundness) are in progress; KF-C15-1 (same-signature associations merged) is a recorded finding replayed on every run',
-   technique='Lean 4 model + differential correspondence (theorems pending)',
+   text='Theorems (Props/C15.lean): subtype queries = reflexive-transitive closure of extends (isSub_iff_rtc), each asset lists exactly the associations in which it or an ancestor takes part (assocs_of_asset, for pairwise distinct signatures), association lookup is correct and symmetric in both orientations, links are mirrored, unknown super assets / association ends / fields / step targets are rejected, and every evaluation result has a subtype of the static type (type_soundness), hence every attack-graph edge is predicted by a language-graph link (overapprox). Model/LangGraph.lean models LanguageGraph._generate_graph (association nodes with the code\'s de-duplication, per-asset association lists, subtype walk), get_association_by_fields_and_assets and the static typing of process_step_expression. The correspondence compares asset / super / sub / association lists, the subtype matrix, association lookups in both orientations, link mirroring and error reporting for ill-formed mutants with an independent reference and the Lean model, and checks for random valid models that every attack-graph edge is predicted by a language-graph link.',
+   note='type soundness / over-approximation carry the hypotheses the proof forced: acyclic extends, field names unique per hierarchy, no variable shadowing, models valid for the language, and for e* that the operand is typed at its own target type (StarTyped: the toolbox does not check this MAL rule; star_side_condition_needed is a proved counterexample); KF-C15-1 (same-signature associations merged, proved as same_signature_merged) is replayed on every run',
+   technique='Lean 4 proof (closure of extends, association lists, lookup, type soundness by induction on fuel and expression) + differential correspondence',
    design='C15')
 CHECKS['C16'] = dict(
    text='Partial. Lean side (Props/C16.lean, re-using C02/C03): generation is a function of the ordered inputs, node ids are positions, node order is model order x fold order, and the step lookups of any number of generations leave the loaded specification unchanged and return the folded steps. Execution side: every (language, model) pair is generated twice in one process, after an analysis, through create_attack_graph from a .mar and a printed .mal with json and yml model files, and in fresh interpreters under PYTHONHASHSEED 0 / 1 / 4242 / random; all serialisations must be identical to each other and to the single answer of the Lean model; model serialisation and specification are compared before/after; node objects of two graphs must be disjoint.',
@@ -80,8 +80,28 @@ CHECKS['C14'] = dict(
    note='partial: CPython object identity is observed (id()), not proved; sharing of model / language is checked at run time only',
    technique='Lean 4 proof (fresh-reference / frame argument over a shared store) + differential correspondence with sharing-pattern check',
    design='C14')
+CHECKS['C04'] = dict(
+   text='Theorems (Props/C04.lean) over the recursive-descent model of mal.g4 + malVisitor: compiling the printed form of any well-formed specification gives the specification back at token level (parse_print) and from text (compile_render_print, lex_render_partial); expression trees are shaped by precedence and left associativity (shape_* theorems), the last name of a reaches expression is the attack step and every other a field (classify_last; cls / relabel characterise exactly what round-trips), TTC arithmetic is left-associative with ^ over * / over + - (parse_print_ttc), the five multiplicity forms normalise as documented, repeating or splitting includes does not change the result (include_flatten, include_repeat). Tied to the real compiler (ANTLR lexer/parser + visitor) by compiling random printed specifications — single file, re-formatted, split over includes — and coreLang from the shipped .mar, each also through the Lean model, and by comparing token streams.',
+   note='the generated ANTLR lexer/parser are assumed to implement mal.g4 (maximal munch, LL); tied by correspondence only; fuel monotonicity holds in the partial form stated in Props/C04.lean (counterexample proved); derivation of lexability of prSpec from conditions on names is recorded UNPROVED (decided per specification by lexOKb)',
+   technique='Lean 4 proof (parser/printer round trip per grammar rule, lexer round trip) + differential correspondence through the real compiler',
+   design='C04')
+CHECKS['C17'] = dict(
+   text='Theorems (Props/C17.lean): the grammar mal.g4 is stated rule by rule as derivation relations carrying the visitor values (Spec/MalGrammar.lean); the model parser is sound and complete for it (parse_sound, parse_exact, reject_iff): whatever it returns is the meaning of a grammatical prefix in the sense of the start rule as written, and it rejects exactly when no such prefix exists; every function consumes a prefix; an error in an included file is an error of the whole. Tied to the real compiler by token-level mutants (deletion, insertion, duplication, truncation, swapped brackets, reserved words, stray characters) of valid programs in root and included files with three-way agreement: Lean parser rejects <=> ANTLR with counting listeners reports an error => MalCompiler.compile raises.',
+   note='the classifier of "does not conform" is the unmodified generated ANTLR parser with counting listeners, as the property states; the start rule has no EOF: trailing text after the last declaration is not an error of the grammar (trailing_tokens_are_ignored)',
+   technique='Lean 4 proof (soundness and completeness of the recogniser w.r.t. the grammar relation) + differential correspondence on mutants',
+   design='C17')
+CHECKS['C18'] = dict(
+   text='Theorems (Props/C18.lean): the 0.0.39 loader and the native loader give literally the same result (state or error) on corresponding documents without extras (old_agrees), hence the old layout round-trips reachable states (old_roundtrip); loading the securiCAD document emitted for a state gives the same assets (id, name, type, every defense value), exactly the pairwise expansion of its links (scad_links_agree) and the same attacker entry points with one tuple per asset (scad_entry_points_agree). Tied to updater.py / securicad.py by translating random native models to both legacy layouts (json/yml/yaml, flat and nested association form; XML in a zip with the attacker on either side) and comparing the real legacy loaders with the real native loader and the Lean models.',
+   note='XML / zip layer and harness rendering assumed; hypotheses forced by the proofs are explicit (no asset type named Attacker, no field named firstSteps, step names without dot, defense names not starting with an upper-case letter, links resolve to their declaration by field names); extras and attacker names are not expressible in the legacy layouts',
+   technique='Lean 4 proof (loader equivalence, inverse translation) + differential correspondence through real files',
+   design='C18')
+CHECKS['C19'] = dict(
+   text='Theorems (Props/C19.lean): ingest_model sends one node per asset (id, name, type) and exactly one relationship per direction and linked pair labelled with the field name, nothing else, no duplicates (ingest_nodes_bij, ingest_rels); ingest_attack_graph sends one node per step with its attributes and one relationship per edge (ingest_graph_iso); the two Cypher queries are characterised (query_pairs_spec); get_model on the ingested subgraph reconstructs the same assets and exactly the pairwise expansion of the links (get_model_inverts), with the necessary language conditions proved necessary by counterexamples (fields_differ_needed, no_mixed_match_needed). Tied to neo4j.py through a recording stand-in for the database driver using real py2neo objects.',
+   note='the database driver is a recording stand-in (trusted); attackers are not exported by ingest_model; hypotheses: an association whose two fields have the same name, or a language declaring an association with the mixed field pair of two others, cannot be inverted (proved)',
+   technique='Lean 4 proof (export characterisation, query semantics, import inverts export) + differential correspondence through a recording driver',
+   design='C19')
 NOT_YET = {}
-PENDING = {'C15', 'C04', 'C17'}   # harness exists, theorems in progress: not claimed until they check
+PENDING = set()   # harness exists, theorems in progress: not claimed until they check
 
 def main():
     for k in PENDING: CHECKS.pop(k, None)
